@@ -5,6 +5,7 @@
   GoSecs/Model/Secs1.lean, the independent receive specification in GoSecs/Spec/E4Receive.lean.
 -/
 import GoSecs.Lemmas.Secs1
+import GoSecs.Lemmas.Secs1Gen
 import GoSecs.Gen.Consts
 
 namespace GoSecs.Props.C17
@@ -20,6 +21,67 @@ theorem consts_gen :
     Gen.secs1_enq = (ENQ.toNat : Int) ∧ Gen.secs1_eot = (EOT.toNat : Int) ∧
     Gen.secs1_ack = (ACK.toNat : Int) ∧ Gen.secs1_nak = (NAK.toNat : Int) := by
   decide
+
+/-! ### Functions regenerated from secs1/block.go, secs1/message.go, internal/wire/body.go
+
+  `Gen.secs1_*` are re-translated from the working tree by tools/go2lean on every run; each theorem below
+  says that the translated function computes, for ALL inputs, what the hand-written model function the
+  property theorems are about computes (proofs in GoSecs/Lemmas/Secs1Gen.lean).  A functions returning
+  `Option` is one whose Go source contains an operation that can panic; `= some …` therefore also says
+  it never does. -/
+
+/-- `buildHeader`: R-bit / device id, W-bit / stream, function, E-bit / block number, system bytes — byte
+    for byte, for every header value and every `uint16` block number (no range hypothesis: both sides
+    truncate the same way). -/
+theorem buildHeader_gen (h : MsgHeader) (bn : Nat) (last : Bool) :
+    Gen.secs1_buildHeader h.toGen (bn : Int) last = (buildHeader h bn last).toList :=
+  Secs1.buildHeader_gen h bn last
+
+/-- The `block` accessors extract the fields the model's `Hdr` accessors extract, for every 10-byte header. -/
+theorem blockAccessors_gen (b : Block) :
+    Gen.secs1_block_deviceID b.toGen = (b.hdr.deviceID : Int) ∧ Gen.secs1_block_rBit b.toGen = b.hdr.rBit ∧
+    Gen.secs1_block_stream b.toGen = (b.hdr.stream : Int) ∧ Gen.secs1_block_waitBit b.toGen = b.hdr.waitBit ∧
+    Gen.secs1_block_function b.toGen = (b.hdr.function : Int) ∧
+    Gen.secs1_block_blockNumber b.toGen = (b.hdr.blockNumber : Int) ∧ Gen.secs1_block_eBit b.toGen = b.hdr.eBit ∧
+    Gen.secs1_block_systemBytes b.toGen = [b.hdr.b6, b.hdr.b7, b.hdr.b8, b.hdr.b9] ∧
+    Gen.secs1_block_messageHeader b.toGen = b.hdr.msgHeader.toGen :=
+  ⟨deviceID_gen b, rBit_gen b, stream_gen b, waitBit_gen b, function_gen b, blockNumber_gen b, eBit_gen b,
+   systemBytes_gen b, messageHeader_gen b⟩
+
+/-- `block.appendTo`: length byte `10 + len(body)`, header, body, 16-bit checksum of header+body big-endian —
+    for every block and destination (the `uint32` accumulator and the `byte(...)` truncation included). -/
+theorem appendTo_gen (b : Block) (dst : Bytes) : Gen.secs1_block_appendTo b.toGen dst = some (appendTo dst b) :=
+  Secs1.appendTo_gen b dst
+
+/-- `parseBlock`: the length-range check (10..254), the length/data agreement, the checksum comparison and the
+    header / body split, with the model's verdict for every length byte and every byte string. -/
+theorem parseBlock_gen (lb : UInt8) (rest : Bytes) :
+    Gen.secs1_parseBlock (lb.toNat : Int) rest =
+      some (match parseBlock lb rest with
+        | .ok b => (b.toGen, none)
+        | .error e => (Gen.secs1_block.zero, some e.goName)) :=
+  Secs1.parseBlock_gen lb rest
+
+/-- `splitBody`: the validation gate and, for every body, the sequence of blocks its iterator yields — offsets
+    `0, 244, 488, …`, lengths `min 244 (total - off)`, the E-bit on the block with `off + n == total`, block
+    numbers counted in a `uint16` — is the model's `splitBody` (whose well-formedness is `split_wellformed`). -/
+theorem splitBody_gen (body : Bytes) (h : MsgHeader) :
+    Gen.secs1_splitBody { body := body } h.toGen =
+      some (match splitBody body h with
+        | .ok bs => (bs.map Block.toGen, none)
+        | .error e => ([], some e.goName)) :=
+  Secs1.splitBody_gen body h
+
+/-- `assembleFrame`: the validation loop (contiguous block numbers 1..N — or the lone block numbered 0 —, the E-bit
+    exactly on the last block, identical message headers), the synthesized HSMS header and the concatenated body
+    are the model's `assembleFrame`, with the same error for every rejected block list; no index, slice or
+    allocation in it can panic. -/
+theorem assembleFrame_gen (blocks : List Block) :
+    Gen.secs1_assembleFrame (blocks.map Block.toGen) =
+      some (match assembleFrame blocks with
+        | .ok f => (f, none)
+        | .error e => (([] : Bytes), some e.goName)) :=
+  Secs1.assembleFrame_gen blocks
 
 /-! ## Outbound: blocks on the line -/
 
